@@ -1,5 +1,6 @@
 import HapVerif.Model.C16
 import HapVerif.Generated.Facts
+import HapVerif.Lemmas.C16Exact24
 /-!
 # C16 — weighted balancing: property theorems
 
@@ -75,5 +76,204 @@ theorem facts_c16 : Facts.c16ClampLow = true ∧ Facts.c16ClampHigh = true ∧
 
 /-- non-vacuity: the former failing input (41/59, one replica each, initial 1) now gets (1,1) -/
 example : rebalance [⟨41, 1⟩, ⟨59, 1⟩] 1 = [some 1, some 1] := by decide +kernel
+
+/-! # E1 — exact rational arithmetic (`rebalanceExact`) meets the whole Spec
+
+Hypothesis `WFIn cls initial`: weights in `0..256`, lengths `≥ 0`, `1 ≤ initial ≤ 256`.
+All statements range over `live cls out` = clusters that carry replicas, paired with the
+weight written for them.  Proofs: Lemmas/C16Int, C16Core, C16Exact. -/
+
+/-- E1: `0 ≤ w ≤ 256` -/
+theorem exact_range {cls : List Cluster} {initial : Int} (h : WFIn cls initial) :
+    ∀ p ∈ live cls (rebalanceExact cls initial), 0 ≤ p.2 ∧ p.2 ≤ 256 := exact_range' h
+
+/-- E1: written weight is 0 iff the configured weight is 0 -/
+theorem exact_zero_iff {cls : List Cluster} {initial : Int} (h : WFIn cls initial) :
+    ∀ p ∈ live cls (rebalanceExact cls initial), (p.2 = 0 ↔ p.1.weight = 0) := exact_zero_iff' h
+
+/-- E1: order, non-strict form (stronger than the Spec clause) -/
+theorem exact_order_le {cls : List Cluster} {initial : Int} (h : WFIn cls initial) :
+    ∀ p ∈ live cls (rebalanceExact cls initial), ∀ q ∈ live cls (rebalanceExact cls initial),
+      ratio p.1 ≤ ratio q.1 → p.2 ≤ q.2 := exact_order_le' h
+
+/-- E1: order, the Spec clause -/
+theorem exact_order {cls : List Cluster} {initial : Int} (h : WFIn cls initial) :
+    ∀ p ∈ live cls (rebalanceExact cls initial), ∀ q ∈ live cls (rebalanceExact cls initial),
+      ratio p.1 < ratio q.1 → p.2 ≤ q.2 :=
+  fun p hp q hq hr => exact_order_le' h p hp q hq (le_of_lt hr)
+
+/-- E1: share, the Spec clause -/
+theorem exact_share {cls : List Cluster} {initial : Int} (h : WFIn cls initial) :
+    ∀ p ∈ live cls (rebalanceExact cls initial), ∀ q ∈ live cls (rebalanceExact cls initial),
+      0 < ratio p.1 → ratio p.1 ≤ ratio q.1 →
+      |(p.2 : Rat) * ratio q.1 - (q.2 : Rat) * ratio p.1| ≤ ratio q.1 := exact_share' h
+
+/-- **E1**: for every well-formed input the exact-arithmetic algorithm satisfies the oracle -/
+theorem exact_oracle {cls : List Cluster} {initial : Int} (h : WFIn cls initial) :
+    oracle cls (rebalanceExact cls initial) = none := exact_oracle' h
+
+/-- the facts of the integer layer that E1 rests on: every non-empty cluster's length
+divides `lcmCount`; in the non-degenerate case `0 < g`, `g ∣ cw`, `0 < mn ≤ cw ≤ mx` for every
+active cluster and `mn`, `mx` are attained -/
+theorem integer_layer {cls : List Cluster} {initial : Int} (h : WFIn cls initial) :
+    (∀ c ∈ cls, c.length ≠ 0 → c.length ∣ lcmCount cls ∧ 0 < lcmCount cls) ∧
+    ((accAll (lcmCount cls) cls).g ≠ 0 →
+      0 < (accAll (lcmCount cls) cls).g ∧ 0 < (accAll (lcmCount cls) cls).mn ∧
+      (accAll (lcmCount cls) cls).mn ≤ (accAll (lcmCount cls) cls).mx ∧
+      ∀ c ∈ cls, active c → (accAll (lcmCount cls) cls).g ∣ clusterWeight (lcmCount cls) c ∧
+        (accAll (lcmCount cls) cls).mn ≤ clusterWeight (lcmCount cls) c ∧
+        clusterWeight (lcmCount cls) c ≤ (accAll (lcmCount cls) cls).mx) :=
+  ⟨fun _ hc h0 => len_dvd_lcmCount h.len hc h0,
+   fun hg => let s := accAll_spec h hg; ⟨s.1, s.2.1, s.2.2.1, s.2.2.2.1⟩⟩
+
+/-- the input used for the non-vacuity examples and for the share counter-example -/
+def wit : List Cluster := [⟨229, 157⟩, ⟨241, 162⟩, ⟨17, 162⟩]
+
+theorem wit_wf : WFIn wit 75 := ⟨by decide, by decide, by decide, by decide, by decide⟩
+theorem wit_small : SmallLcm wit ∧ Exact24 wit 75 := by decide +kernel
+
+/-- non-vacuity of E1: the hypothesis is satisfiable and the result is non-trivial -/
+example : rebalanceExact wit 75 = [some 251, some 256, some 18] ∧
+    oracle wit (rebalanceExact wit 75) = none := by decide +kernel
+example : oracle wit (rebalanceExact wit 75) = none := exact_oracle wit_wf
+example : live wit (rebalanceExact wit 75) ≠ [] := by decide +kernel
+
+/-! # E2 — the rounding interface and its binary32 instance
+
+`f32` models the NORMAL range with unbounded exponent: no subnormals, no overflow.  Hence
+the relative-error bound is stated for every rational; for IEEE binary32 it is the bound
+for `2^-126 ≤ |x| < 2^128`.  Proofs: Lemmas/C16Round. -/
+
+/-- `2^e ≤ x < 2^(e+1)` for `e = ilog2 x`, from the `Nat.log2` bounds -/
+theorem ilog2_spec {x : Rat} (hx : 0 < x) : pow2 (ilog2 x) ≤ x ∧ x < pow2 (ilog2 x + 1) :=
+  ilog2_bounds hx
+
+/-- `roundEven` is within 1/2 and monotone -/
+theorem roundEven_spec : (∀ q : Rat, |(roundEven q : Rat) - q| ≤ 1 / 2) ∧
+    (∀ p q : Rat, p ≤ q → roundEven p ≤ roundEven q) :=
+  ⟨roundEven_err, fun _ _ h => roundEven_mono h⟩
+
+theorem f32_mono {x y : Rat} (h : x ≤ y) : f32 x ≤ f32 y := f32_monotone h
+
+/-- integers `|z| ≤ 2^24` are representable … -/
+theorem f32_exact_int (z : Int) (hz : |z| ≤ 2 ^ 24) : f32 (z : Rat) = (z : Rat) := f32_exact_of_int z hz
+
+/-- … and so are their products with powers of two -/
+theorem f32_exact_int_pow2 (z k : Int) (hz : |z| ≤ 2 ^ 24) :
+    f32 ((z : Rat) * pow2 k) = (z : Rat) * pow2 k := f32_exact_of_int_pow2 z k hz
+
+/-- relative error `≤ 2^-24` (normal range, see above) -/
+theorem f32_rel_err (x : Rat) : |f32 x - x| ≤ |x| * (1 / 2 ^ 24) := f32_relative_error x
+
+/-- **E2**: `f32` is a `Rounding` (monotone, `0 ↦ 0`, exact on `z·2^k` with `|z| ≤ 2^24`,
+relative error `≤ 2^-24`) -/
+theorem f32_is_rounding : Rounding f32 := f32_rounding
+
+/-- non-vacuity of E2: a value that is really rounded, an exact integer, the largest exact
+integer, and the first integer that is not representable -/
+example : f32 (1 / 41) ≠ 1 / 41 ∧ f32 16777215 = 16777215 ∧ f32 16777216 = 16777216 ∧
+    f32 16777217 = 16777216 ∧ ilog2 (1 / 41) = -6 := by decide +kernel
+
+/-! # E3 — the binary32 model `rebalance`
+
+Proved for `rebalanceWith rnd` with ANY `Rounding rnd` (only the relative-error bound is
+used; an int → float conversion is treated as one more rounding, so `Exact24` is not needed;
+`Exact24` and the exactness of the conversions under it are in Lemmas/C16Exact24).
+`SmallLcm cls` is `256 * lcmCount cls < 2^24`.  Proofs: Lemmas/C16Near, C16Float. -/
+
+theorem f32_range_lower {cls : List Cluster} {initial : Int} (h : WFIn cls initial) :
+    ∀ p ∈ live cls (rebalance cls initial), 0 ≤ p.2 :=
+  fun p hp => (float_range' f32_rounding h p hp).1
+
+theorem f32_range_upper {cls : List Cluster} {initial : Int} (h : WFIn cls initial) :
+    ∀ p ∈ live cls (rebalance cls initial), p.2 ≤ 256 :=
+  fun p hp => (float_range' f32_rounding h p hp).2
+
+/-- the zero-iff clause on `live` (same content as `zero_iff` above) -/
+theorem f32_zero_iff {cls : List Cluster} {initial : Int} (h : WFIn cls initial) :
+    ∀ p ∈ live cls (rebalance cls initial), (p.2 = 0 ↔ p.1.weight = 0) :=
+  float_zero_iff' f32_rounding h
+
+/-- **order** for the binary32 model, the STRICT Spec clause, under `256·lcm < 2^24`:
+two distinct configured ratios differ by a factor `≥ 1 + 2^-16` (`ratio_gap`), the chain of
+at most 15 roundings perturbs by a factor `< 1 + 2^-19`. -/
+theorem f32_order {cls : List Cluster} {initial : Int} (h : WFIn cls initial) (hs : SmallLcm cls) :
+    ∀ p ∈ live cls (rebalance cls initial), ∀ q ∈ live cls (rebalance cls initial),
+      ratio p.1 < ratio q.1 → p.2 ≤ q.2 := float_order' f32_rounding h hs
+
+/- FULL-STRENGTH share statement — FALSE for the binary32 model (and for the Go code),
+   even under `WFIn ∧ SmallLcm ∧ Exact24`, see `f32_share_counterexample`:
+
+   theorem f32_share (h : WFIn cls initial) (hs : SmallLcm cls) (he : Exact24 cls initial) :
+       ∀ p ∈ live cls (rebalance cls initial), ∀ q ∈ live cls (rebalance cls initial),
+         0 < ratio p.1 → ratio p.1 ≤ ratio q.1 →
+         |(p.2 : Rat) * ratio q.1 - (q.2 : Rat) * ratio p.1| ≤ ratio q.1
+-/
+
+/-- **share**, what the error bound supports: the Spec inequality with `ratio q` relaxed to
+`ratio q * (1 + 1/1024)` (no hypothesis on the lcm needed). -/
+theorem f32_share_partial {cls : List Cluster} {initial : Int} (h : WFIn cls initial) :
+    ∀ p ∈ live cls (rebalance cls initial), ∀ q ∈ live cls (rebalance cls initial),
+      0 < ratio p.1 → ratio p.1 ≤ ratio q.1 →
+      |(p.2 : Rat) * ratio q.1 - (q.2 : Rat) * ratio p.1| ≤ ratio q.1 * (1 + 1 / 1024) :=
+  float_share_weak' f32_rounding h
+
+/-- **near-exact**: at every position with replicas, the weight written by the binary32
+computation differs from the exact-arithmetic weight by at most one unit (also when the two
+computations take different branches of `weightFactor > 1`). -/
+theorem f32_near_exact {cls : List Cluster} {initial : Int} (h : WFIn cls initial)
+    (i : Nat) (hi : i < cls.length) (hl : 0 < cls[i].length) :
+    ∃ w w' : Int, (rebalance cls initial)[i]? = some (some w) ∧
+      (rebalanceExact cls initial)[i]? = some (some w') ∧ |w - w'| ≤ 1 := by
+  obtain ⟨w, w', h1, h2, h3⟩ := float_near_exact' f32_rounding h (List.getElem_mem hi) hl
+  refine ⟨w, w', ?_, ?_, h3⟩
+  · unfold rebalance; rw [rebalanceWith_map, List.getElem?_map, List.getElem?_eq_getElem hi]
+    simp [h1]
+  · unfold rebalanceExact; rw [rebalanceWith_map, List.getElem?_map, List.getElem?_eq_getElem hi]
+    simp [h2]
+
+/-- **the strict share clause fails for the binary32 model** (hence for `RebalanceWeight`,
+which agrees with the model bit for bit): weights 229/241/17 with 157/162/162 replicas,
+initial-weight 75.  `lcm = 25434`, `256·lcm < 2^24`, all conversions exact.  The ideal weight
+of the first group is `256·37098/37837 = 251 + 1/37837`; the float chain yields a value
+just below 251, truncated to 250, which is `1 + 1/37837` units below the proportional
+value: `|250·(241/162) − 256·(229/157)| = 37838/25434 > 37837/25434 = 241/162`.
+Exact arithmetic writes 251. -/
+theorem f32_share_counterexample :
+    WFIn wit 75 ∧ SmallLcm wit ∧ Exact24 wit 75 ∧
+    rebalance wit 75 = [some 250, some 256, some 18] ∧
+    rebalanceExact wit 75 = [some 251, some 256, some 18] ∧
+    specShare (⟨229, 157⟩, 250) (⟨241, 162⟩, 256) = false ∧
+    oracle wit (rebalance wit 75) = some "share" :=
+  ⟨wit_wf, wit_small.1, wit_small.2, by decide +kernel, by decide +kernel, by decide +kernel,
+    by decide +kernel⟩
+
+/-- **E3 summary**: under `WFIn` and `256·lcm < 2^24` the only Spec clause that the binary32
+model can violate is `share` (and then by less than one part in 1024). -/
+theorem f32_oracle_partial {cls : List Cluster} {initial : Int} (h : WFIn cls initial)
+    (hs : SmallLcm cls) :
+    oracle cls (rebalance cls initial) = none ∨ oracle cls (rebalance cls initial) = some "share" := by
+  have hl : cls.length = (rebalance cls initial).length := (rebalanceWith_length _ _ _).symm
+  have e1 : (live cls (rebalance cls initial)).all specRange = true :=
+    List.all_eq_true.2 fun p hp => (specRange_iff p).2 (float_range' f32_rounding h p hp)
+  have e2 : (live cls (rebalance cls initial)).all specZero = true :=
+    List.all_eq_true.2 fun p hp => (specZero_iff p).2 (float_zero_iff' f32_rounding h p hp)
+  have e3 : ((live cls (rebalance cls initial)).all fun p =>
+      (live cls (rebalance cls initial)).all fun q => specOrder p q) = true :=
+    List.all_eq_true.2 fun p hp => List.all_eq_true.2 fun q hq =>
+      (specOrder_iff p q).2 (float_order' f32_rounding h hs p hp q hq)
+  unfold oracle
+  simp only [ne_eq, hl, not_true_eq_false, if_false, e1, e2, e3, Bool.not_true, Bool.false_eq_true]
+  split <;> simp
+
+/-- non-vacuity of E3 on the witness input and on a benign one -/
+example : live wit (rebalance wit 75) = [(⟨229, 157⟩, 250), (⟨241, 162⟩, 256), (⟨17, 162⟩, 18)] := by
+  decide +kernel
+example : WFIn [⟨1, 3⟩, ⟨3, 1⟩] 128 ∧ SmallLcm [⟨1, 3⟩, ⟨3, 1⟩] ∧
+    rebalance [⟨1, 3⟩, ⟨3, 1⟩] 128 = [some 28, some 256] ∧
+    oracle [⟨1, 3⟩, ⟨3, 1⟩] (rebalance [⟨1, 3⟩, ⟨3, 1⟩] 128) = none :=
+  ⟨⟨by decide, by decide, by decide, by decide, by decide⟩, by decide +kernel, by decide +kernel,
+    by decide +kernel⟩
+
 
 end HapVerif.C16
